@@ -14,7 +14,11 @@ the raw units of the whole container are read back through ffi.buffer, and
      'surrogatepass' -- no model involved), and
  (b) the same operation is sent to the Lean driver and the answers are diffed.
 """
+import json
+import os
+import signal
 import struct
+import traceback
 
 import common
 from common import InfraError
@@ -58,6 +62,7 @@ FINDINGS = [{
             "character array as the single astral character the pair spells (inherent to UTF-16)",
 }]
 
+ARENA, GUARD = 1024, 256
 TYPES = ["char", "signed char", "unsigned char", "wchar_t", "char16_t", "char32_t"]
 FMT = {1: "B", 2: "H", 4: "I"}
 
@@ -210,8 +215,7 @@ def gen_case(rng, sizes):
             if op == "assign":
                 case["container"] = rng.choice(["item", "field", "init-field"])
                 case["prior"] = [0] * n if case["container"] == "init-field" else gen_prior(rng, size, n)
-                if case["container"] != "init-field":
-                    case["around"] = gen_prior(rng, size, 4)
+                case["around"] = gen_prior(rng, size, 4)
                 if n == 0:
                     case["container"] = "item"
                     case["prior"] = []
@@ -240,6 +244,95 @@ def gen_case(rng, sizes):
     return case
 
 
+
+# ---------------------------------------------------------------- the guaranteed grid
+
+ROUTES = ["field", "item", "init-field", "new_fixed"]
+FITS = ["exact", "shorter-by-1", "shorter-by-more", "too-long-by-1"]
+STR_CLASSES = ["bmp", "astral-start", "astral-middle", "astral-end", "astral-several", "lone-surrogates"]
+BYTES_CLASSES = ["ascii", "high-bytes"]
+WIDTH_TYPES = {1: ["char", "signed char", "unsigned char"], 2: ["char16_t"], 4: ["wchar_t", "char32_t"]}
+GRID_MIN = 3        # cases per (route x width x fit x string class) cell, every run
+
+
+def _bmp(rng):
+    return rng.choice([rng.randint(0x21, 0x7E), rng.randint(0xA1, 0xFF), rng.randint(0x100, 0xD7FF),
+                       rng.randint(0xE000, 0xFFFF), 0xFFFF])
+
+
+def _astral(rng):
+    return rng.choice([0x10000, 0x10FFFF, 0x1F600, rng.randint(0x10000, 0x10FFFF)])
+
+
+def gen_class_string(rng, cls, min_units=1):
+    """A string of the given class (code points / byte values), at least `min_units` units long in every width."""
+    if cls == "ascii":
+        return [rng.randint(1, 0x7F) for _ in range(rng.randint(max(1, min_units), 6))]
+    if cls == "high-bytes":
+        return [rng.choice([rng.randint(0x80, 0xFF), 0xFF, 0x80]) for _ in range(rng.randint(max(1, min_units), 6))]
+    some = lambda lo, hi: [_bmp(rng) for _ in range(rng.randint(lo, hi))]
+    if cls == "bmp":
+        return some(max(1, min_units), 6)
+    if cls == "astral-start":
+        return [_astral(rng)] + some(max(0, min_units - 1), 3)
+    if cls == "astral-end":
+        return some(max(0, min_units - 1), 3) + [_astral(rng)]
+    if cls == "astral-middle":
+        return some(1, 2) + [_astral(rng)] + some(1, 2)
+    if cls == "astral-several":
+        out = [_astral(rng)]
+        for _ in range(rng.randint(1, 3)):
+            out += some(0, 1) + [_astral(rng)]
+        return out + some(0, 1)
+    if cls == "lone-surrogates":
+        # never a high directly followed by a low (that is the known-finding class)
+        out = []
+        for _ in range(rng.randint(max(1, min_units), 4)):
+            c = rng.choice([rng.randint(0xD800, 0xDBFF), rng.randint(0xDC00, 0xDFFF), _bmp(rng)])
+            if out and _is_high(out[-1]) and _is_low(c):
+                out.append(_bmp(rng))
+            out.append(c)
+        if not any(0xD800 <= c <= 0xDFFF for c in out):
+            out.append(rng.randint(0xDC00, 0xDFFF) if not (out and _is_high(out[-1])) else rng.randint(0xD800, 0xDBFF))
+        return out
+    raise InfraError("unknown string class " + cls)
+
+
+def gen_grid(rng, sizes):
+    """Every (route x width x fit x string class) cell GRID_MIN times, plus ffi.new('T[]') per (width x class);
+    lengths and contents random within the class.  -> [(cell name, case)]"""
+    out = []
+    widths = sorted(set(sizes.values()))
+    for w in widths:
+        types = [T for T in TYPES if sizes[T] == w]
+        classes = BYTES_CLASSES if w == 1 else STR_CLASSES
+        kind = "bytes" if w == 1 else "str"
+        turn = 0
+        for cls in classes:
+            for rep in range(GRID_MIN):
+                T = types[turn % len(types)]
+                turn += 1
+                init = {"kind": kind, "v": gen_class_string(rng, cls)}
+                out.append(("new_open|w%d|open|%s" % (w, cls),
+                            {"type": T, "size": w, "op": "new_open", "init": init, "maxlens": [], "ns": []}))
+            for route in ROUTES:
+                for fit in FITS:
+                    for rep in range(GRID_MIN):
+                        T = types[turn % len(types)]
+                        turn += 1
+                        init = {"kind": kind, "v": gen_class_string(rng, cls, 2 if fit == "too-long-by-1" else 1)}
+                        u = len(oracle_units(init, w))
+                        n = {"exact": u, "shorter-by-1": u + 1, "shorter-by-more": u + rng.randint(2, 5),
+                             "too-long-by-1": u - 1}[fit]
+                        case = {"type": T, "size": w, "init": init, "n": n}
+                        if route == "new_fixed":
+                            case.update(op="new_fixed")
+                        else:
+                            case.update(op="assign", container=route, around=gen_prior(rng, w, 4),
+                                        prior=[0] * n if route == "init-field" else gen_prior(rng, w, n))
+                        out.append(("%s|w%d|%s|%s" % (route, w, fit, cls), case))
+    return out
+
 # ---------------------------------------------------------------- running one case
 
 class Runner:
@@ -251,6 +344,28 @@ class Runner:
             if s not in (1, 2, 4):
                 raise InfraError("unexpected sizeof(%s) = %d" % (T, s))
         self.structs = {}
+        # ffi.new() for the new_* scenarios allocates inside an arena this harness owns, so that a store
+        # outside the array lands in observed padding (0xA5) instead of corrupting the heap
+        self.arena = ffi.new("char[]", ARENA)
+        self.arena_size = None
+
+        def alloc(nbytes):
+            self.arena_size = nbytes
+            if nbytes > ARENA - 2 * GUARD:
+                raise InfraError("arena too small for %d bytes" % nbytes)
+            return ffi.cast("char *", self.arena) + GUARD
+        self.new = ffi.new_allocator(alloc, None, True)
+
+    def arena_prepare(self):
+        self.ffi.buffer(self.arena)[:] = b"\xa5" * ARENA
+        self.arena_size = None
+
+    def arena_damage(self):
+        """Offsets (relative to the allocation) of bytes outside it that changed."""
+        raw = bytes(self.ffi.buffer(self.arena))
+        n = self.arena_size or 0
+        bad = [i - GUARD for i in range(ARENA) if not (GUARD <= i < GUARD + n) and raw[i] != 0xA5]
+        return bad
 
     def struct_for(self, T, n):
         key = (T, n)
@@ -323,8 +438,13 @@ class Runner:
             val = to_py(init)
             n = case.get("n")
             decl = "%s[]" % T if op == "new_open" else "%s[%d]" % (T, n)
-            st, p = attempt(lambda: ffi.new(decl, val))
+            self.arena_prepare()
+            st, p = attempt(lambda: self.new(decl, val))
             want = expect_store(init, n)
+            damage = self.arena_damage()
+            if damage:
+                problems.append(("store", "ffi.new(%r, %r) wrote outside the %s bytes it allocated, at byte offsets %s"
+                                 % (decl, val, self.arena_size, damage[:8])))
             line = ("new %d %s" % (size, tok(init))) if op == "new_open" else ("newn %d %d %s" % (size, n, tok(init)))
             if st == "err":
                 obs.append((line, "err " + p))
@@ -379,11 +499,15 @@ class Runner:
                     def do():
                         p.a = val
                 else:
-                    before = [0] * (n + 4)
+                    around = case.get("around") or [0, 0, 0, 0]
+                    before = around[:2] + [0] * n + around[2:]
                     holder = []
 
                     def do():
-                        holder.append(ffi.new("struct %s *" % sname, {"a": val}))
+                        # dict order = store order: the neighbours first, then the array
+                        nb = (lambda v: bytes(v)) if size == 1 else (lambda v: "".join(chr(c) for c in v))
+                        holder.append(ffi.new("struct %s *" % sname,
+                                              {"pre": nb(around[:2]), "post": nb(around[2:]), "a": val}))
                 lo, hi = 2, 2 + n
                 target = lambda: (holder[0] if cont == "init-field" else p).a
             st, e = attempt(do)
@@ -399,6 +523,8 @@ class Runner:
                     problems.append(("store", "%s of %r into %s[%d] raised %s, expected %r" % (cont, val, T, n, e, want)))
                 if after is not None and after != before:
                     problems.append(("store", "rejected store changed memory: %s -> %s" % (before, after)))
+                if after is None and cont == "init-field" and want == ("err", e):
+                    pass        # the struct was never created
                 return obs, problems
             obs.append((line, "ok " + lst(after[lo:hi])))
             if want[0] == "err":
@@ -463,14 +589,65 @@ def classify(ctx, case):
         ctx.count("string:" + ("no-maxlen" if case["maxlen"] < 0 else "maxlen"))
 
 
-def run_cases(ctx, n, with_driver):
-    runner = Runner()
+def run_guarded(cases):
+    """Execute the cases in a forked child (the implementation under test may corrupt the heap or crash);
+    -> (results, crashed): results[i] = (obs, problems) for the cases completed, crashed = None or
+    (index of the case running when the child died, description)."""
+    r, w = os.pipe()
+    pid = os.fork()
+    if pid == 0:
+        code = 0
+        try:
+            os.close(r)
+            runner = Runner()
+            with os.fdopen(w, "w") as out:
+                for i, case in enumerate(cases):
+                    out.write("S %d\n" % i)
+                    out.flush()
+                    obs, problems = runner.run(case)
+                    out.write("R " + json.dumps([obs, problems]) + "\n")
+                    out.flush()
+        except BaseException:
+            traceback.print_exc()
+            code = 3
+        finally:
+            os._exit(code)
+    os.close(w)
+    results, started = [], -1
+    with os.fdopen(r) as inp:
+        for line in inp:
+            if line.startswith("S "):
+                started = int(line[2:])
+            elif line.startswith("R "):
+                obs, problems = json.loads(line[2:])
+                results.append(([tuple(o) for o in obs], [tuple(p) for p in problems]))
+    _, status = os.waitpid(pid, 0)
+    if os.WIFSIGNALED(status):
+        sig = os.WTERMSIG(status)
+        try:
+            name = signal.Signals(sig).name
+        except ValueError:
+            name = str(sig)
+        return results, (started, "the interpreter was killed by %s while executing this case "
+                                  "(memory corrupted by this or an earlier store)" % name)
+    if os.WEXITSTATUS(status) != 0 or len(results) != len(cases):
+        raise InfraError("case runner failed (exit %d) after %d of %d cases" % (os.WEXITSTATUS(status), len(results), len(cases)))
+    return results, None
+
+
+def run_cases(ctx, n, with_driver, fixed=()):
+    sizes = Runner().sizes
+    todo = [(None, c) for c in fixed] + gen_grid(ctx.rng, sizes)
+    ngrid = len(todo)
+    todo += [(None, gen_case(ctx.rng, sizes)) for _ in range(n)]
+    results, crashed = run_guarded([c for _, c in todo])
     lines, expect = [], []
-    for _ in range(n):
-        case = gen_case(ctx.rng, runner.sizes)
-        obs, problems = runner.run(case)
-        ctx.case(nontrivial_key(case), sample=case)
-        classify(ctx, case)
+    for idx, ((cell, case), (obs, problems)) in enumerate(zip(todo, results)):
+        ctx.case(nontrivial_key(case), sample=case if idx >= ngrid else None)
+        if cell:
+            ctx.count("cell:" + cell)
+        else:
+            classify(ctx, case)
         for tag, text in problems:
             c = dict(case)
             c["failed"] = tag
@@ -478,6 +655,12 @@ def run_cases(ctx, n, with_driver):
         for line, impl in obs:
             lines.append(line)
             expect.append((case, impl))
+    if crashed:
+        idx, text = crashed
+        c = dict(todo[idx][1])
+        c["failed"] = "crash"
+        ctx.fail(c, text)
+        ctx.count("crashed")
     ctx.count("driver-lines", len(lines))
     if not with_driver:
         return
@@ -489,39 +672,28 @@ def run_cases(ctx, n, with_driver):
 
 # ---------------------------------------------------------------- entry points
 
-def correspond(ctx):
-    _register_findings(ctx)
+def fixed_cases(sizes):
     # the witness of the finding and of the repaired defect, always
-    runner = Runner()
-    fixed = [
-        {"type": "wchar_t", "size": runner.sizes["wchar_t"], "op": "assign", "container": "field", "n": 6,
+    return [
+        {"type": "wchar_t", "size": sizes["wchar_t"], "op": "assign", "container": "field", "n": 6,
          "init": {"kind": "str", "v": [0x61, 0x62]}, "prior": [0x77, 0x78, 0x79, 0x7A, 0x21, 0x22], "around": [1, 2, 3, 4]},
         {"type": "char16_t", "size": 2, "op": "assign", "container": "item", "n": 5,
          "init": {"kind": "str", "v": [0x1F600]}, "prior": [0x77, 0x78, 0x79, 0x7A, 0x21], "around": [1, 2, 3, 4]},
+        {"type": "char16_t", "size": 2, "op": "assign", "container": "field", "n": 2,
+         "init": {"kind": "str", "v": [0x1F600]}, "prior": [0x77, 0x78], "around": [1, 2, 3, 4]},
         {"type": "char16_t", "size": 2, "op": "new_open", "init": {"kind": "str", "v": [0xD83D, 0xDE00]},
          "maxlens": [1], "ns": [2]},
     ]
-    lines, expect = [], []
-    for case in fixed:
-        obs, problems = runner.run(case)
-        ctx.case(nontrivial_key(case), sample=None)
-        for tag, text in problems:
-            c = dict(case)
-            c["failed"] = tag
-            ctx.fail(c, text)
-        for line, impl in obs:
-            lines.append(line)
-            expect.append((case, impl))
-    out = ctx.driver(lines)
-    for line, o, (case, impl) in zip(lines, out, expect):
-        if o != impl:
-            ctx.disagree(case, impl, o, line)
-    run_cases(ctx, ctx.n(5000, 200000), with_driver=True)
+
+
+def correspond(ctx):
+    _register_findings(ctx)
+    run_cases(ctx, ctx.n(5000, 200000), with_driver=True, fixed=fixed_cases(Runner().sizes))
 
 
 def search(ctx):
     _register_findings(ctx)
-    run_cases(ctx, ctx.n(30000, 400000), with_driver=False)
+    run_cases(ctx, ctx.n(30000, 400000), with_driver=False, fixed=fixed_cases(Runner().sizes))
 
 
 def check_witness(ctx, finding):
